@@ -315,21 +315,25 @@ pub enum M {
   BG,
   BF,
   BA,
+  /// Embedded in A's `capabilityInvocation` only.
+  ACI,
+  /// Embedded in A's `capabilityDelegation` only.
+  ACD,
 }
 
 impl M {
-  pub const ALL: [M; 8] = [M::AG, M::AA, M::AN, M::AForeignF, M::AForeignG, M::BG, M::BF, M::BA];
+  pub const ALL: [M; 10] = [M::AG, M::AA, M::AN, M::AForeignF, M::AForeignG, M::BG, M::BF, M::BA, M::ACI, M::ACD];
   /// The document that lists the method.
   pub fn host(self) -> Which {
     match self {
-      M::AG | M::AA | M::AN | M::AForeignF | M::AForeignG => Which::A,
+      M::AG | M::AA | M::AN | M::AForeignF | M::AForeignG | M::ACI | M::ACD => Which::A,
       M::BG | M::BF | M::BA => Which::B,
     }
   }
   /// DID part of the method id.
   pub fn id_did(self) -> &'static str {
     match self {
-      M::AG | M::AA | M::AN => DID_A,
+      M::AG | M::AA | M::AN | M::ACI | M::ACD => DID_A,
       _ => DID_B,
     }
   }
@@ -339,6 +343,8 @@ impl M {
       M::AA | M::BA => "a",
       M::AN => "n",
       M::AForeignF | M::BF => "f",
+      M::ACI => "ci",
+      M::ACD => "cd",
     }
   }
   pub fn id(self) -> String {
@@ -356,6 +362,8 @@ impl M {
       M::AForeignG => Placement::Embedded(Rel::KeyAgreement),
       M::BG => Placement::General(vec![Rel::AssertionMethod, Rel::Authentication]),
       M::BF => Placement::General(vec![Rel::AssertionMethod]),
+      M::ACI => Placement::Embedded(Rel::CapabilityInvocation),
+      M::ACD => Placement::Embedded(Rel::CapabilityDelegation),
     }
   }
   fn key_number(self) -> u64 {
